@@ -139,6 +139,12 @@ def scene_layered(draw, max_layers=5, n_t=(3, 40), n_ceilos=(1, 4), lone=True):
                 h = layer_height(spec, 1 + dt / span if span else 0, noise[i])
                 if h not in hits[i]:
                     hits[i].append(h)
+    if specs and len(set(m[0] for m in meas)) >= 2 and draw(st.integers(0, 9)) < 3:
+        # one instrument never misses the first deck (it has no non-detection), the others do
+        always = sorted(set(m[0] for m in meas))[draw(st.integers(0, 1))]
+        for i, (c, dt) in enumerate(meas):
+            if c == always and not hits[i]:
+                hits[i].append(layer_height(specs[0], 1 + dt / span if span else 0, 500))
     if lone:
         for _ in range(draw(st.integers(0, 4))):
             i = draw(st.integers(0, n - 1))
@@ -304,9 +310,13 @@ def scene_many_slices(draw):
         rows.append(['A', -900.0 + i * 2, float(lo + (gap if i % 2 else 0)), 1])
     for j in range(nsing):
         rows.append(['B', -900.0 + j * 5 + 1, float(2000 + 400 * j), 1])
+    for j in draw(st.lists(st.integers(25, nsing - 1), min_size=1, max_size=2, unique=True)):
+        # a second singleton deck 200 ft above deck j (above 10000 ft): sliced apart, then merged by the 250 ft
+        # separation of the upper bin -> group ids with a gap
+        rows.append(['B', -900.0 + j * 5 + 2, float(2000 + 400 * j + 200), 1])
     return {'cls': 'many_slices', 'rows': rows,
             'prms_hint': {'SLICING_PRMS': {'distance_threshold': 0.004},
-                          'MIN_SEP_VALS': [60, 60], 'MIN_SEP_LIMS': [10000], 'MAX_HITS_OKTA0': 0}}
+                          'MIN_SEP_VALS': [60, 250], 'MIN_SEP_LIMS': [10000], 'MAX_HITS_OKTA0': 0}}
 
 
 @st.composite
@@ -453,6 +463,31 @@ def scene_handover(draw):
     return {'cls': 'handover', 'rows': draw(order_rows(rows))}
 
 
+@st.composite
+def scene_excl_merge(draw):
+    """ An excluded instrument A sees three thin decks; the other instrument B contributes only 1-3 stray hits
+    just below the lowest deck. The stray hits and the lowest deck get merged; whether the merged base is taken
+    from B's few hits or (fall-back: too few of them) from all hits decides if the next deck must be merged too. """
+    b = float(draw(st.sampled_from([1000, 3000, 6000])))
+    e = draw(st.sampled_from([30, 40, 60]))
+    nstray = draw(st.integers(1, 3))
+    n = draw(st.integers(12, 24))
+    third = b + e + 250 - draw(st.sampled_from([5, e // 2, e - 5]))
+    rows = []
+    for i in range(n):
+        dt = -900.0 + 900.0 * i / n
+        rows.append(['A', dt, b + e, 1])
+        rows.append(['A', dt, float(third), 2])
+        if i < nstray:
+            rows.append(['B', dt + 1.0, b, 1])
+        else:
+            rows.append(['B', dt + 1.0, None, 0])
+    return {'cls': 'excl_merge', 'rows': draw(order_rows(rows)),
+            'prms_hint': {'EXCLUDE_FOR_BASE_HEIGHT_CALC': ['A'], 'BASE_LVL_HEIGHT_PERC': draw(st.sampled_from([50, 95])),
+                          'MIN_SEP_VALS': [250, 1000], 'MIN_SEP_LIMS': [10000],
+                          'SLICING_PRMS': {'distance_threshold': 0.02}, 'MAX_HITS_OKTA0': 3}}
+
+
 DEGENERATE_KINDS = ['higher_types_only', 'higher_types_only', 'single_hit', 'all_nan', 'all_vv', 'two_rows', 'identical', 'two_heights',
                     'one_stamp_3hits', 'identical30', 'one_row_nan', 'two_heights_30', 'zero_height']
 
@@ -554,6 +589,7 @@ SCENES = {
     'tie_split': scene_tie_split,
     'heavy_tail': scene_heavy_tail,
     'handover': scene_handover,
+    'excl_merge': scene_excl_merge,
 }
 
 
